@@ -1152,7 +1152,7 @@ class Model:
                                     start_mx.is_symbolic()
                                     and str(start_mx) != str(sign * alias_start_mx)
                                 )
-                                or start != alias_start_mx
+                                or (start_mx.is_constant() and start != alias_start_mx)
                             ):
                                 logger.warning(
                                     "Current start attribute of canonical variable '{}' ({})"
